@@ -80,10 +80,10 @@ def _mk_system():
 
 
 @harness(
-    parts=lambda: [[sec, who, hp] for sec in range(len(SECTIONS)) for who in range(2) for hp in range(2)],
+    parts=lambda: [[sec, who, hp] for sec in range(len(SECTIONS)) for who in range(2) for hp in range(3)],
     timeout=(200, 1200), cls="S", tracing="symbolic-through-pydoctor", twin="first",
     code=["pydoctor.model.Documentable.report", "pydoctor.model.Documentable.description"],
-    bounds={"quick": "docstring_lineno, linenumber, lineno_offset, shift k in 0..3 (0 = unknown); 5 sections; object = module itself or a function in it; source path set or not",
+    bounds={"quick": "docstring_lineno, linenumber, lineno_offset, shift k in 0..3 (0 = unknown); 5 sections; object = module itself or a function in it; no source path / the module's / a different file than its module's (re-exported object)",
             "thorough": "ints in 0..6"},
     outside="line values beyond the bound (the arithmetic is linear; f-string formatting of unbounded symbolic ints does not terminate in CrossHair)",
 )
@@ -101,7 +101,8 @@ def h_report(dl: int, ln: int, off: int, k: int) -> bool:
         if has_path:
             from pathlib import Path
             mod.source_path = Path("/src/pkgmod.py")
-            fn.source_path = mod.source_path
+            # has_path == 2: the object was defined in another file than its (re-exporting) module
+            fn.source_path = mod.source_path if has_path == 1 else Path("/src/_impl.py")
         ob.docstring_lineno = dl_
         ob.linenumber = ln_
         ob.report("the message", section=section, lineno_offset=off)
@@ -111,7 +112,7 @@ def h_report(dl: int, ln: int, off: int, k: int) -> bool:
     if len(msgs) != 1:
         return False
     sec, text, thresh = msgs[0]
-    where = "/src/pkgmod.py" if has_path else "pkgmod"
+    where = ("/src/_impl.py" if (has_path == 2 and who == 1) else "/src/pkgmod.py") if has_path else "pkgmod"
     # which line the statement asks for
     if section in ("docstring", "resolve_identifier_xref"):
         base = dl if dl else ln
